@@ -599,6 +599,8 @@ impl AbstractTree for BlobTree {
     fn get<K: AsRef<[u8]>>(&self, key: K, seqno: SeqNo) -> crate::Result<Option<crate::UserValue>> {
         let key = key.as_ref();
 
+        #[cfg(feature = "verif")]
+        crate::verif::probe_read(&self.index.version_history, "blob_tree/mod.rs:version_history.read#30");
         #[expect(clippy::expect_used, reason = "lock is expected to not be poisoned")]
         let super_version = self
             .index
